@@ -22,22 +22,23 @@ import (
 )
 
 var (
-	flagProp      = flag.String("prop", "", "property id (C01..C20), comma separated, or 'all'")
-	flagTier      = flag.String("tier", "quick", "quick|thorough")
-	flagRepo      = flag.String("repo", "/repo", "repository root")
-	flagVerif     = flag.String("verif", "/verif", "verif root (evidence, reports, known findings)")
-	flagWorker    = flag.Bool("worker", false, "internal: run one configuration and print JSON")
-	flagConfig    = flag.String("config", "", "internal: configuration GOOS/GOARCH/tags")
-	flagMutant    = flag.String("mutant", "", "internal: mutant id to overlay")
-	flagOut       = flag.String("out", "", "internal: worker output file")
-	flagReplay    = flag.String("replay", "", "re-decide the obligation recorded in a report file")
-	flagVerbose   = flag.Bool("v", false, "print every obligation")
-	flagNoMut     = flag.Bool("nomutants", false, "skip overlay mutants")
-	flagList      = flag.Bool("list", false, "list rules")
-	flagSurvey    = flag.String("survey", "", "development aid: run every mutant of an automut file against all rules and report survivors")
-	flagMutFile   = flag.String("mutfile", "", "internal: automut file the -mutant id refers to")
-	flagDumpFuncs = flag.Bool("dumpfuncs", false, "development aid: print the function keys of the module over the whole configuration matrix (source of core/baseline_funcs.txt)")
-	flagJobs      = flag.Int("jobs", 12, "parallel workers for -survey")
+	flagProp       = flag.String("prop", "", "property id (C01..C20), comma separated, or 'all'")
+	flagTier       = flag.String("tier", "quick", "quick|thorough")
+	flagRepo       = flag.String("repo", "/repo", "repository root")
+	flagVerif      = flag.String("verif", "/verif", "verif root (evidence, reports, known findings)")
+	flagWorker     = flag.Bool("worker", false, "internal: run one configuration and print JSON")
+	flagConfig     = flag.String("config", "", "internal: configuration GOOS/GOARCH/tags")
+	flagMutant     = flag.String("mutant", "", "internal: mutant id to overlay")
+	flagOut        = flag.String("out", "", "internal: worker output file")
+	flagReplay     = flag.String("replay", "", "re-decide the obligation recorded in a report file")
+	flagVerbose    = flag.Bool("v", false, "print every obligation")
+	flagNoMut      = flag.Bool("nomutants", false, "skip overlay mutants")
+	flagList       = flag.Bool("list", false, "list rules")
+	flagSurvey     = flag.String("survey", "", "development aid: run every mutant of an automut file against all rules and report survivors")
+	flagMutFile    = flag.String("mutfile", "", "internal: automut file the -mutant id refers to")
+	flagDumpFuncs  = flag.Bool("dumpfuncs", false, "development aid: print the function keys of the module over the whole configuration matrix (source of core/baseline_funcs.txt)")
+	flagDumpFields = flag.Bool("dumpfields", false, "with -dumpfuncs: print the struct fields instead (source of core/baseline_fields.txt)")
+	flagJobs       = flag.Int("jobs", 12, "parallel workers for -survey")
 )
 
 // Mutant is a textual exact-once replacement applied through the loader overlay.
@@ -183,6 +184,7 @@ func worker() (code int) {
 	res.Packages = len(p.Pkgs)
 	res.Absorbed = p.AbsorbedNames()
 	res.InlineErrors = p.InlineErrors
+	res.Renames = p.Renames
 	for _, pk := range p.Pkgs {
 		res.Funcs += len(p.FuncsOf(pk))
 	}
@@ -420,6 +422,7 @@ func finishProp(prop, tier string, seed int, jobs, mjobs []*job, mutOf map[*job]
 	var loadErrs []string
 	pkgs, funcs, ssaFuncs := 0, 0, 0
 	absorbed := map[string]bool{}
+	renames := map[string]bool{}
 	ruleSites := map[string]int{}
 	baseViol := map[string]map[string]bool{} // config -> violated keys
 	var cfgNames []string
@@ -472,6 +475,9 @@ func finishProp(prop, tier string, seed int, jobs, mjobs []*job, mutOf map[*job]
 		}
 		for _, a := range r.Absorbed {
 			absorbed[a] = true
+		}
+		for _, a := range r.Renames {
+			renames[a] = true
 		}
 		for k, v := range r.Rules {
 			if rulePrefix(k) == prop && v > ruleSites[k] {
@@ -636,6 +642,7 @@ func finishProp(prop, tier string, seed int, jobs, mjobs []*job, mutOf map[*job]
 		"functions":           funcs,
 		"ssa_functions":       ssaFuncs,
 		"absorbed_helpers":    sortedKeys(absorbed),
+		"renames_recognised":  sortedKeys(renames),
 		"rules":               ruleList,
 		"mutants":             map[string]any{"run": len(mr), "killed": mKilled, "stale": mStale, "survived": mSurv, "detail": mr},
 		"checker_cmd":         fmt.Sprintf("/verif/bin/gnetlint -prop %s -tier %s", prop, tier),
@@ -760,9 +767,11 @@ func replay() int {
 	return code
 }
 
-// dumpFuncs prints pkgpath.Recv.Name for every module function in every configuration of the matrix.
+// dumpFuncs prints the baseline tables: with -dumpfuncs every module function as
+// pkgpath.Recv.Name<TAB>signature<TAB>configs, with -dumpfuncs -dumpfields every field of a named struct.
 func dumpFuncs() int {
-	seen := map[string]bool{}
+	sig := map[string]string{}
+	cfgs := map[string][]string{}
 	for _, cfg := range rules.Matrix {
 		p, err := core.Load(*flagRepo, cfg, nil)
 		if err != nil {
@@ -770,20 +779,46 @@ func dumpFuncs() int {
 			return 3
 		}
 		for _, pk := range p.Pkgs {
+			if *flagDumpFields {
+				sc := pk.Types.Scope()
+				for _, name := range sc.Names() {
+					tn, ok := sc.Lookup(name).(*types.TypeName)
+					if !ok {
+						continue
+					}
+					st, ok := tn.Type().Underlying().(*types.Struct)
+					if !ok {
+						continue
+					}
+					for i := 0; i < st.NumFields(); i++ {
+						f := st.Field(i)
+						k := core.FieldKey(pk.PkgPath, name, f.Name())
+						sig[k] = types.TypeString(f.Type(), func(p *types.Package) string { return p.Path() })
+						cfgs[k] = append(cfgs[k], cfg.String())
+					}
+				}
+				continue
+			}
 			for _, obj := range pk.TypesInfo.Defs {
 				if fn, ok := obj.(*types.Func); ok && p.RawDecl(fn) != nil {
-					seen[core.FuncKey(fn)] = true
+					k := core.FuncKey(fn)
+					sig[k] = core.SigString(fn)
+					cfgs[k] = append(cfgs[k], cfg.String())
 				}
 			}
 		}
 	}
 	var keys []string
-	for k := range seen {
+	for k := range sig {
 		keys = append(keys, k)
 	}
 	sort.Strings(keys)
 	for _, k := range keys {
-		fmt.Println(k)
+		cs := map[string]bool{}
+		for _, c := range cfgs[k] {
+			cs[c] = true
+		}
+		fmt.Printf("%s\t%s\t%s\n", k, sig[k], strings.Join(sortedKeys(cs), ";"))
 	}
 	return 0
 }
